@@ -14,7 +14,7 @@ CONSTANTS MaxPush, Dom
 VARIABLES c, r, pushes, fin
 vars == <<c, r, pushes, fin>>
 
-OkVals == {<<"pos", 1>>, <<"pos", 2>>, <<"pos", 3>>, <<"sub", 0>>, <<"pz", 0>>, <<"nz", 0>>}
+OkVals == {<<"pos", 2>>, <<"pos", 4>>, <<"pos", 6>>, <<"sub", 0>>, <<"pz", 0>>, <<"nz", 0>>}
 AllVals == OkVals \cup {<<"neg", 1>>, <<"pnan", 0>>, <<"nnan", 0>>}
 Vals == IF Dom = "ok" THEN OkVals ELSE AllVals
 Ops == {"difficulty_value", "osu_difficulty_value", "sum", "into_vec", "iter"}
